@@ -67,6 +67,7 @@ def verify(name, checks=None, tier="quick", tests=True):
             r = sh(["patch", "-p1", "-i", str(d / "patch.diff")], cwd=wt)
         applied = r.returncode == 0
         rc1, out1 = run_demo(wt, demo) if applied else (None, r.stdout + r.stderr)
+        prev_tests = meta.get("verified", {}).get("repo_tests")
         meta["verified"] = {
             "repo_head": sh(["git", "-C", "/repo", "rev-parse", "--short", "HEAD"]).stdout.strip(),
             "demo_exit_unmodified": rc0,
@@ -74,6 +75,8 @@ def verify(name, checks=None, tier="quick", tests=True):
             "demo_exit_patched": rc1,
             "demo_tail_patched": out1[-300:],
         }
+        if prev_tests and not tests:
+            meta["verified"]["repo_tests"] = prev_tests
         print(f"{name}: demo unmodified exit {rc0}; patch applies {applied}; demo patched exit {rc1}")
         if rc0 != 0:
             print(out0)
@@ -135,5 +138,12 @@ if __name__ == "__main__":
             elif x == "--no-tests":
                 tests = False
         verify(name, checks, tier, tests)
+    elif a[0] == "verify-all":
+        # re-run, for every seed, the checks recorded in its meta file (no repo tests)
+        for d in sorted(SEEDED.iterdir()):
+            if (d / "meta.json").exists():
+                meta = json.loads((d / "meta.json").read_text())
+                ids = sorted({k.split(":")[0] for k in meta.get("checks", {})}) or [meta["property"]]
+                verify(d.name, ids, "quick", False)
     elif a[0] == "table":
         table()
